@@ -25,6 +25,7 @@ def supported (T : FTab K) : MExpr K → Bool
   | .bin op a b => (op != .ne) && supported T a && supported T b
   | .ife bs => supportedBr T bs
   | .call f args => callable T f && supporteds T args
+  | .delay _ e d => supported T e && supported T d
 def supporteds (T : FTab K) : MExprs K → Bool
   | .nil => true
   | .cons e es => supported T e && supporteds T es
@@ -73,6 +74,11 @@ theorem gen_total_aux (P : Prims K) (o : Opts) (T : FTab K) : ∀ e : MExpr K, s
     obtain ⟨tas, htas⟩ := gens_total P o T args h.2
     obtain ⟨c, hc⟩ := userCall_total o T f h.1 tas
     exact ⟨c, by simp [gen, htas, bind, Except.bind, hc]⟩
+  | .delay k e d, h => by
+    simp only [supported, Bool.and_eq_true] at h
+    obtain ⟨te, hte⟩ := gen_total_aux P o T e h.1
+    obtain ⟨td, htd⟩ := gen_total_aux P o T d h.2
+    exact ⟨.ref (delayName k) [], by simp [gen, hte, htd, bind, Except.bind]⟩
 theorem gens_total (P : Prims K) (o : Opts) (T : FTab K) : ∀ es : MExprs K, supporteds T es = true →
     ∃ cs, gens P o T es = .ok cs
   | .nil, _ => ⟨_, rfl⟩
